@@ -228,11 +228,15 @@ Fixpoint cgb_loop (fuel : nat) (s : cgsettings) (k : consts) (fr : bool) (lo hi 
         let changed := reached && negb (oeqb O (nth i (ls_x o) (o0 O)) xb) in
         let x3 := if reached then set_nth i xb (ls_x o) else ls_x o in
         let bs3 := if reached then set_nth i itype bs1 else bs1 in
-        let utd3 := if changed then -1 else ls_utd o in
         let ls_st := if reached then MSuccess else ls_status o in
         (* variables within rounding error of a bound *)
         let '(x4, bs4, anyhit, anychg) := snap_all k lo hi x3 bs3 in
-        let utd4 := if anychg then -1 else utd3 in
+        (* the state is no longer the one at which the line search evaluated the cost function: evaluate it again *)
+        let placed := changed || anychg in
+        let cost4 := if placed then cost x4 else ls_cost_fn o in
+        let utd4 := if placed then 0 else ls_utd o in
+        let samples4 := if placed then ls_samples o + 1 else ls_samples o in
+        let log3 := if placed then log2 ++ [EvCost x4] else log2 in
         let restart4 := reached || anyhit in
         let '(status, restart5) :=
           match ls_st with
@@ -241,7 +245,7 @@ Fixpoint cgb_loop (fuel : nat) (s : cgsettings) (k : consts) (fr : bool) (lo hi 
           end in
         let it' := q_it q2 + 1 in
         let status' := match status with MNotYetConverged => if g_max_it s <=? it' then MMaxIterations else MNotYetConverged | _ => status end in
-        let q3 := mkCgs x4 (ls_gradient o) g dir bs4 utd4 (omul O (ls_step o) (c2 k)) restart5 last_restart it' (ls_samples o) (ls_cost_fn o) (q_start q2) gn log2 in
+        let q3 := mkCgs x4 (ls_gradient o) g dir bs4 utd4 (omul O (ls_step o) (c2 k)) restart5 last_restart it' samples4 cost4 (q_start q2) gn log3 in
         match status' with
         | MNotYetConverged => cgb_loop fuel' s k fr lo hi nx q3
         | _ => cg_finish s status' q3
